@@ -52,10 +52,23 @@ def tests_only(pid, k, name):
         ca, oa = sh(f"git -C {wt} apply {dst}/patch.diff")
         assert ca == 0, oa
         missing, tail = run_tests(wt)
+        # timing-based tests fail under load: re-run what is missing alone, twice at most
+        rerun = {}
+        for m in [x for x in missing if "faster_than" not in x]:
+            mod, name = m.split("::", 1)
+            node = mod.replace(".", "/") + ".py::" + name
+            for _ in range(2):
+                c, o = sh(f"cd {wt} && {PY} -m pytest -q -p no:cacheprovider '{node}'", env={"PYTHONPATH": f"{wt}/src"})
+                rerun[m] = (c == 0)
+                if c == 0:
+                    break
+        still = [m for m in missing if "faster_than" not in m and not rerun.get(m)]
     finally:
         sh(f"git -C /repo worktree remove --force {wt}")
     rec = json.load(open(f"{dst}/meta.json"))
-    rec["tests_on_changed_tree"] = {"baseline_tests_not_passing": missing, "summary": tail}
+    rec["tests_on_changed_tree"] = {"baseline_tests_not_passing": missing, "summary": tail, "passed_when_rerun_alone": rerun,
+                                    "note": "test_one_backend_is_faster_than_efficient_backend is the baseline's flaky wall-clock test"}
+    missing = still + [m for m in missing if "faster_than" in m]
     rec["confirmed"] = bool(rec.get("demo_clean_exit") == 0 and rec.get("demo_changed_exit") not in (0, None) and rec.get("patch_applies")
                             and not [m for m in missing if "faster_than" not in m])
     json.dump(rec, open(f"{dst}/meta.json", "w"), indent=1)
